@@ -1,3 +1,4 @@
+import BtcProofs.Lemmas.Der
 import BtcModel.Ecdsa
 import Mathlib.Algebra.Field.ZMod
 import Mathlib.Algebra.Module.Basic
@@ -87,5 +88,46 @@ example : secpOrder / 2 < 2^255 := by decide
 
 /-- strict DER decoding of a known signature evaluates in the kernel (test) -/
 example : derDecode [0x30, 0x06, 0x02, 0x01, 0x01, 0x02, 0x01, 0x02] = some (1, 2) := by decide
+
+end Btc.C13
+
+namespace Btc.C13
+open Btc
+
+/-- T (strict DER): decoding the DER encoding of a signature `(r, s)` with `1 ≤ r, s < 2^256`
+gives back exactly `(r, s)` — in particular what the library serialises is accepted by the strict
+(BIP66) decoder: minimal lengths, no negative and no zero-padded integers. -/
+theorem derDecode_derEncode (r s : Nat) (hr1 : 1 ≤ r) (hr2 : r < 2 ^ 256) (hs1 : 1 ≤ s) (hs2 : s < 2 ^ 256) :
+    derDecode (derEncode r s) = some (r, s) := by
+  obtain ⟨rv, rl1, rl2, rok⟩ := derInt_spec r hr1 hr2
+  obtain ⟨sv, sl1, sl2, sok⟩ := derInt_spec s hs1 hs2
+  unfold derEncode
+  generalize derInt r = rb at *
+  generalize derInt s = sb at *
+  have e1 : (UInt8.ofNat rb.length).toNat = rb.length := toNat_ofNat_lt (by omega)
+  have e2 : (UInt8.ofNat sb.length).toNat = sb.length := toNat_ofNat_lt (by omega)
+  have e3 : (UInt8.ofNat ([0x02, UInt8.ofNat rb.length] ++ rb ++ [0x02, UInt8.ofNat sb.length] ++ sb).length).toNat =
+      rb.length + sb.length + 4 := by
+    rw [toNat_ofNat_lt] <;> simp <;> omega
+  simp only [List.cons_append, List.nil_append, List.append_assoc]
+  unfold derDecode
+  simp only [e1]
+  have hlen : ¬ (rb ++ 2 :: UInt8.ofNat sb.length :: sb).length < rb.length + 2 := by simp
+  rw [if_neg hlen]
+  have hdrop : (rb ++ 2 :: UInt8.ofNat sb.length :: sb).drop rb.length = 2 :: UInt8.ofNat sb.length :: sb := by simp
+  have htake : (rb ++ 2 :: UInt8.ofNat sb.length :: sb).take rb.length = rb := by simp
+  rw [hdrop]
+  simp only [htake, e2]
+  have e3' : (UInt8.ofNat (rb ++ 2 :: UInt8.ofNat sb.length :: sb).length.succ.succ).toNat = rb.length + sb.length + 4 := by
+    rw [toNat_ofNat_lt] <;> simp <;> omega
+  simp only [List.length_cons, List.length_append] at e3' ⊢
+  have hcond : (sb.length == sb.length &&
+      (UInt8.ofNat (rb.length + (sb.length + 1 + 1) + 1 + 1)).toNat == rb.length + (sb.length + 1 + 1) + 1 + 1 + 1 + 1 - 2 &&
+      derIntOk rb && derIntOk sb) = true := by
+    have : (UInt8.ofNat (rb.length + (sb.length + 1 + 1) + 1 + 1)).toNat = rb.length + (sb.length + 1 + 1) + 1 + 1 := by
+      rw [toNat_ofNat_lt]; omega
+    simp [rok, sok]
+    omega
+  rw [if_pos hcond, rv, sv]
 
 end Btc.C13
